@@ -25,14 +25,19 @@ mod twins;
 
 pub fn exec(op: &str, a: &Value) -> Option<Value> {
     let row = op.strip_prefix("Wrap.")?;
+    let twin = a.get("twin").and_then(|t| t.as_str()).unwrap_or("");
+    // the core twin runs first (fresh provider, no shared state)
+    let c = twins::call(twin, a).unwrap_or_else(|| json!({"kind": "unknown-twin", "name": twin}));
     let w = match row.strip_prefix("capi.") {
         Some(r) => capi::call(r, a),
+        // A compiled-data wrapper runs while holding the process-wide TZ_PROVIDER mutex: a panic in there poisons it and
+        // every later compiled call of this process fails. Where the core twin has just panicked on the same arguments the
+        // wrapper is therefore not run (outcome presumed equal; panics are C03's subject), and nothing is run on a poisoned lock.
+        None if c["kind"] == "panic" => Some(json!({"kind": "panic", "presumed": true})),
+        None if temporal_rs::verif::provider_lock_poisoned() => Some(json!({"kind": "lock-poisoned"})),
         None => compiled::call(row, a),
     };
-    let twin = a.get("twin").and_then(|t| t.as_str()).unwrap_or("");
-    let c = twins::call(twin, a);
-    Some(json!({"wrapper": w.unwrap_or_else(|| json!({"kind": "unknown-wrapper", "name": row})),
-                "core": c.unwrap_or_else(|| json!({"kind": "unknown-twin", "name": twin}))}))
+    Some(json!({"wrapper": w.unwrap_or_else(|| json!({"kind": "unknown-wrapper", "name": row})), "core": c}))
 }
 
 /// names known to the three tables (for the pipeline's table cross-check)
@@ -151,7 +156,8 @@ pub fn a_pdate(v: &Value) -> TemporalResult<PartialDate> {
     Ok(PartialDate {
         year: opt_i(v, "year").map(|x| x as i32),
         month: opt_i(v, "month").map(|x| x as u8),
-        month_code: match js::opt_s(v, "month_code") { Some(s) => Some(MonthCode::try_from_utf8(s.as_bytes()).map_err(|_| TemporalError::syntax())?), None => None },
+        // the core parser of month codes, with the core's own error kind
+        month_code: match js::opt_s(v, "month_code") { Some(s) => Some(MonthCode::try_from_utf8(s.as_bytes())?), None => None },
         day: opt_i(v, "day").map(|x| x as u8),
         era: match js::opt_s(v, "era") { Some(s) => Some(TinyAsciiStr::try_from_utf8(s.as_bytes()).map_err(|_| TemporalError::syntax())?), None => None },
         era_year: opt_i(v, "era_year").map(|x| x as i32),
